@@ -55,6 +55,9 @@ inductive Expr (N : Type) where
   | div (a b : Expr N)
   | neg (a : Expr N)
   | prim (p : Prim) (a : Expr N)
+  /-- `jnp.maximum` / `jnp.minimum`: at a tie JAX splits the cotangent evenly (`_balanced_eq`) -/
+  | max (a b : Expr N)
+  | min (a b : Expr N)
   /-- `jnp.where(c, a, b)`; the mask is computed from values and is not differentiated -/
   | sel (c : Env N → Bool) (a b : Expr N)
   | letE (i : Nat) (v body : Expr N)
@@ -94,6 +97,8 @@ def Expr.eval (env : Env N) : Expr N → N
   | .div a b => a.eval env / b.eval env
   | .neg a => -(a.eval env)
   | .prim p a => applyPrim p (a.eval env)
+  | .max a b => if Num.lt (a.eval env) (b.eval env) then b.eval env else a.eval env
+  | .min a b => if Num.lt (b.eval env) (a.eval env) then b.eval env else a.eval env
   | .sel c a b => if c env then a.eval env else b.eval env
   | .letE i v body => body.eval (env.set i (v.eval env))
 
@@ -118,6 +123,18 @@ def Expr.vjp (env : Env N) : Expr N → N → Grad N
       a.vjp env (ct / b.eval env) ++ b.vjp env (-(ct * a.eval env) / (b.eval env * b.eval env))
   | .neg a, ct => a.vjp env (-ct)
   | .prim p a, ct => a.vjp env (ct * dPrim p (a.eval env))
+  | .max a b, ct =>
+      let x := a.eval env
+      let y := b.eval env
+      let wa : N := if Num.lt y x then Num.ofInt 1 else if Num.lt x y then Num.ofInt 0 else Num.ofInt 1 / Num.ofInt 2
+      let wb : N := if Num.lt x y then Num.ofInt 1 else if Num.lt y x then Num.ofInt 0 else Num.ofInt 1 / Num.ofInt 2
+      a.vjp env (ct * wa) ++ b.vjp env (ct * wb)
+  | .min a b, ct =>
+      let x := a.eval env
+      let y := b.eval env
+      let wa : N := if Num.lt x y then Num.ofInt 1 else if Num.lt y x then Num.ofInt 0 else Num.ofInt 1 / Num.ofInt 2
+      let wb : N := if Num.lt y x then Num.ofInt 1 else if Num.lt x y then Num.ofInt 0 else Num.ofInt 1 / Num.ofInt 2
+      a.vjp env (ct * wa) ++ b.vjp env (ct * wb)
   | .sel c a b, ct =>
       a.vjp env (if c env then ct else Num.ofInt 0) ++ b.vjp env (if c env then Num.ofInt 0 else ct)
   | .letE i v body, ct =>
